@@ -328,7 +328,7 @@ def build_join_step(ck, v6, src, obs=None):
 def register(ck, tag, driver, params, builder):
     src = Src()
     R = builder(src, None)
-    rp = harness.make_replayer(ck, "rate_limit", driver, lambda s, obs: builder(s, obs)["goals"], params)
+    rp = harness.make_replayer(ck, "rate_limit", driver, lambda s, obs: builder(s, obs), params)
     ck.register_src(driver, params, src)
     prefs = clock_freeze_pref(R["eng"])
     for g, f in R["goals"].items():
